@@ -295,6 +295,9 @@ def run_property(prop, tier, seed, nproc=None, only=None, verbose=False):
                                     'detail': ob, 'kind': ob.get('kind', 'contract')})
                 else:
                     A['undecided'].append(name + ' (%s)' % ob.get('why', 'unknown'))
+            if verbose:
+                print('  A:%-60s obligations=%-3d %.1fs' % (fn + (' chunk %s' % (m.get('chunk'),) if m.get('chunk') else ''),
+                                                           len(r['obligations']), r.get('wall_s', 0)))
             if r.get('canary_proved'):
                 crashed.append('A:%s: vacuity canary was proved (contradictory requires?)' % fn)
         else:
